@@ -27,10 +27,12 @@ const (
 	evRestart
 	evUpDest
 	evRxNoPrev
+	evRxDuplicate // the most recently received bundle arrives once more, from another connected peer
+	evFailOne     // only the first connected peer fails / works again
 	nEvents
 )
 
-var evNames = []string{"submit", "rx_from_a", "rx_from_b", "up_a", "up_b", "up_c", "down", "toggle_fail", "retry_tick", "restart", "up_dest", "rx_without_previous_node"}
+var evNames = []string{"submit", "rx_from_a", "rx_from_b", "up_a", "up_b", "up_c", "down", "toggle_fail", "retry_tick", "restart", "up_dest", "rx_without_previous_node", "rx_duplicate", "toggle_fail_first_peer"}
 
 type tracked struct {
 	id       string // bundle ID on the wire
@@ -54,6 +56,9 @@ type scenario struct {
 	hist    []string
 	viol    bool
 	seenSends int
+	lastWire  []byte
+	lastFrom  string
+	failOne   map[string]bool
 	persistent bool // sent-memory is kept in the store
 	v3      bool   // a failed peer must be retried at the next opportunity
 }
@@ -90,7 +95,7 @@ func (sc *scenario) peerUp(name string) bool {
 	}
 	sc.up[name] = true
 	sc.s.PeerUpWith(name, func(p *nodesim.Peer) {
-		if sc.failing {
+		if sc.failing || sc.failOne[name] {
 			p.Fail()
 		}
 	})
@@ -130,7 +135,9 @@ func (sc *scenario) rx(from string, withPrev bool) {
 	sc.byPID[pid] = tr
 	if err := sc.s.Deliver(from, wire); err != nil {
 		delete(sc.byPID, pid)
+		return
 	}
+	sc.lastWire, sc.lastFrom = wire, from
 }
 
 func (sc *scenario) submit() {
@@ -157,6 +164,29 @@ func (sc *scenario) apply(ev int) {
 		sc.rx("b", true)
 	case evRxNoPrev:
 		sc.rx(sc.firstUp(), false)
+	case evRxDuplicate:
+		if sc.lastWire != nil {
+			for _, n := range []string{"c", "b", "a"} {
+				if sc.up[n] && n != sc.lastFrom {
+					_ = sc.s.Deliver(n, sc.lastWire)
+					break
+				}
+			}
+		}
+	case evFailOne:
+		if n := sc.firstUp(); n != "" {
+			if sc.failOne == nil {
+				sc.failOne = map[string]bool{}
+			}
+			sc.failOne[n] = !sc.failOne[n]
+			if p := sc.s.Peer(n); p != nil {
+				if sc.failOne[n] || sc.failing {
+					p.Fail()
+				} else {
+					p.OK()
+				}
+			}
+		}
 	case evUpA:
 		opportunity = sc.peerUp("a")
 	case evUpB:
@@ -174,7 +204,7 @@ func (sc *scenario) apply(ev int) {
 		sc.failing = !sc.failing
 		for n, u := range sc.up {
 			if p := sc.s.Peer(n); u && p != nil {
-				if sc.failing {
+				if sc.failing || sc.failOne[n] {
 					p.Fail()
 				} else {
 					p.OK()
